@@ -20,26 +20,46 @@ def env():
 
 
 def run_sandboxed(tool, args, cwd, log, cpu_s=20, mem_mb=1024, timeout=90, stdin=b""):
-    """-> dict(rc, out, err, wall, events=[(kind, path)], killed)"""
+    """-> dict(rc, out, err, wall, cpu, events=[(kind, path)], killed)
+    termination is judged on the CPU time of the child (RLIMIT_CPU kills it at cpu_s; it reports what it used on exit), not on
+    wall time: when the machine is loaded and the wall-clock guard expires first, the run is repeated once with a long guard"""
     t0 = time.time()
+    cmd = [PY, "-B", SANDBOX, log, str(cpu_s), str(mem_mb), tool] + list(args)
+    wall_guard = False
     try:
-        p = subprocess.run([PY, "-B", SANDBOX, log, str(cpu_s), str(mem_mb), tool] + list(args), cwd=cwd, env=env(),
-                           capture_output=True, timeout=timeout, input=stdin)
-        rc, out, err, killed = p.returncode, p.stdout, p.stderr, False
-    except subprocess.TimeoutExpired as e:
-        rc, out, err, killed = -999, e.stdout or b"", e.stderr or b"", True
+        p = subprocess.run(cmd, cwd=cwd, env=env(), capture_output=True, timeout=timeout, input=stdin)
+        rc, out, err = p.returncode, p.stdout, p.stderr
+    except subprocess.TimeoutExpired:
+        try:
+            p = subprocess.run(cmd, cwd=cwd, env=env(), capture_output=True, timeout=max(300, 4 * timeout), input=stdin)
+            rc, out, err = p.returncode, p.stdout, p.stderr
+        except subprocess.TimeoutExpired as e:
+            rc, out, err, wall_guard = -999, e.stdout or b"", e.stderr or b"", True
     events = []
+    cpu = None
     if os.path.exists(log):
         for line in open(log, errors="replace").read().splitlines():
             parts = line.split("\t")
+            if parts[0] == "T":
+                try:
+                    cpu = float(parts[-1])
+                except ValueError:
+                    pass
+                continue
             events.append((parts[0], parts[-1]))
+    killed = wall_guard or rc in (-24, -9) or (cpu is not None and cpu > 0.75 * cpu_s)
     return {"rc": rc, "out": out.decode(errors="replace"), "err": err.decode(errors="replace"), "wall": time.time() - t0,
-            "events": events, "killed": killed or rc in (-24, -9, -999)}
+            "cpu": cpu, "events": events, "killed": killed}
 
 
 def run_module(tool, args, cwd, timeout=60, stdin=b""):
     """`python3 -m tool args` exactly as documented; -> (rc, stdout, stderr)"""
-    p = subprocess.run([PY, "-B", "-m", tool] + list(args), cwd=cwd, env=env(), capture_output=True, timeout=timeout, input=stdin)
+    cmd = [PY, "-B", "-m", tool] + list(args)
+    try:
+        p = subprocess.run(cmd, cwd=cwd, env=env(), capture_output=True, timeout=timeout, input=stdin)
+    except subprocess.TimeoutExpired:
+        # loaded machine: once more, with a long guard
+        p = subprocess.run(cmd, cwd=cwd, env=env(), capture_output=True, timeout=max(300, 5 * timeout), input=stdin)
     return p.returncode, p.stdout.decode(errors="replace"), p.stderr.decode(errors="replace")
 
 
